@@ -46,6 +46,10 @@ SCRIPTS = {
     "search_then_bind": ["c_search", "d_cs_all", "s_entry", "s_final", "d_sc_all", "c_bind", "d_cs_half", "d_cs_all", "s_final", "d_sc_all"],
     "reassembled_then_more": ["c_ext", "d_cs_1", "d_cs_half", "d_cs_all", "c_ext", "d_cs_all", "s_final", "s_final", "d_sc_half", "d_sc_all", "c_search", "d_cs_all", "s_entry", "d_sc_all"],
     "reassembled_then_empty": ["c_search", "d_cs_half", "d_cs_all", "s_entry", "d_sc_1", "d_sc_all", "s_final", "d_sc_all", "c_ext", "d_cs_all"],
+    "rich_search": ["c_search_rich", "d_cs_half", "d_cs_all", "s_final", "d_sc_all"],
+    "rich_entries": ["c_search", "d_cs_all", "s_entry_rich", "s_ref", "d_sc_half", "d_sc_all", "s_final_rich", "d_sc_all"],
+    "rich_bind": ["c_bind_rich", "d_cs_all", "s_final_rich", "d_sc_all"],
+    "rich_ext": ["c_ext", "d_cs_all", "s_final_rich", "d_sc_half", "d_sc_all"],
     "notice_alone": ["c_ext", "d_cs_all", "s_notice", "d_sc_all"],
     "notice_after_response": ["c_search", "c_ext", "d_cs_all", "s_final", "s_notice", "d_sc_all"],
     "notice_split": ["c_search", "c_ext", "d_cs_all", "s_final", "d_sc_all", "s_notice", "d_sc_half", "d_sc_all"],
@@ -101,7 +105,17 @@ def body(ctx, shape):
         data = ctx.tobytes(sess_.data_to_send())
         if len(data):
             pipe[d] = pipe[d] + data
-            sent[d].extend(decode_all(ctx, data))
+            try:
+                sent[d].extend(decode_all(ctx, data))
+            except Exception as e:  # noqa: BLE001
+                # the peer runs the same decoder on the same bytes: it cannot receive this message
+                ctx.fail("library-cannot-decode-what-it-sent", f"{type(e).__name__}@{exc_site(e)}")
+
+    def sent_is(d, **fields):
+        """the message just put on the wire carries the arguments of the call"""
+        m = sent[d][-1]
+        for k, v in fields.items():
+            ctx.require(ctx.eq(getattr(m, k), v), "sent-message-differs-from-the-call-arguments:" + k)
 
     def deliver(d, how):
         src, dst = (c, s) if d == "cs" else (s, c)
@@ -153,6 +167,73 @@ def body(ctx, shape):
             app(lambda: c.bind_sasl("X", None, ctx.bytes(f"{tag}.cred", 1)), "c")
         elif act == "c_search":
             app(lambda: c.search_request(ctx.str(f"{tag}.base", 1, 0x61, 0x7A)), "c")
+        elif act == "c_search_rich":
+            a = dict(
+                base_object=ctx.str(f"{tag}.base", 1, 0, 0x10FFFF),
+                scope=M.SearchScope(ctx.int(f"{tag}.scope", 0, 2)),
+                dereferencing_policy=M.DereferencingPolicy(ctx.int(f"{tag}.deref", 0, 3)),
+                size_limit=ctx.int(f"{tag}.size", 0, 2**31 - 1),
+                time_limit=ctx.int(f"{tag}.time", 0, 127),
+                types_only=ctx.bool(f"{tag}.typesonly"),
+                attributes=[ctx.str(f"{tag}.attr", 1, 0x61, 0x7A), "*"],
+            )
+            n0 = len(sent["cs"])
+            app(lambda: c.search_request(**a), "c")
+            if len(sent["cs"]) > n0:
+                a["deref_aliases"] = a.pop("dereferencing_policy")
+                sent_is("cs", **{k: v for k, v in a.items() if hasattr(sent["cs"][-1], k)})
+        elif act == "c_bind_rich":
+            binds += 1
+            dn, pw = ctx.str(f"{tag}.dn", 1, 0x20, 0x7E), ctx.str(f"{tag}.pw", 1, 0, 0x10FFFF)
+            n0 = len(sent["cs"])
+            app(lambda: c.bind_simple(dn, pw), "c")
+            if len(sent["cs"]) > n0:
+                sent_is("cs", name=dn)
+                ctx.require(ctx.eq(sent["cs"][-1].authentication.password, pw), "sent-message-differs-from-the-call-arguments:password")
+        elif act == "s_entry_rich":
+            srch = [p for p in pending if p[1] == "SearchRequest"]
+            if not srch:
+                ctx.assume(False)
+            dn = ctx.str(f"{tag}.dn", 1, 0, 0x10FFFF)
+            attrs = [M.PartialAttribute(ctx.str(f"{tag}.an", 1, 0x61, 0x7A), [ctx.bytes(f"{tag}.av", 2), b""]), M.PartialAttribute("e", [])]
+            n0 = len(sent["sc"])
+            app(lambda: s.search_result_entry(srch[0][0], dn, attrs), "s")
+            if len(sent["sc"]) > n0:
+                sent_is("sc", object_name=dn)
+                got_attrs = sent["sc"][-1].attributes
+                ctx.require(len(got_attrs) == 2 and ctx.eq(got_attrs[0].name, attrs[0].name) and len(got_attrs[0].values) == 2 and ctx.eq(got_attrs[0].values[0], attrs[0].values[0]), "sent-message-differs-from-the-call-arguments:attributes")
+        elif act == "s_ref":
+            srch = [p for p in pending if p[1] == "SearchRequest"]
+            if not srch:
+                ctx.assume(False)
+            uri = ctx.str(f"{tag}.uri", 2, 0x21, 0x7E)
+            n0 = len(sent["sc"])
+            app(lambda: s.search_result_reference(srch[0][0], [uri, "ldap://b"]), "s")
+            if len(sent["sc"]) > n0:
+                ctx.require(len(sent["sc"][-1].uris) == 2 and ctx.eq(sent["sc"][-1].uris[0], uri), "sent-message-differs-from-the-call-arguments:uris")
+        elif act == "s_final_rich":
+            if not pending:
+                ctx.assume(False)
+            mid, kind = pending.pop(0)
+            rc = M.LDAPResultCode(ctx.int(f"{tag}.code", 0, 80))
+            mdn, diag = ctx.str(f"{tag}.mdn", 1, 0x20, 0x7E), ctx.str(f"{tag}.diag", 1, 0, 0x7FF)
+            n0 = len(sent["sc"])
+            if kind == "BindRequest":
+                cred = ctx.bytes(f"{tag}.cred", 1)
+                app(lambda: s.bind_response(mid, cred, rc, mdn, diag), "s")
+            elif kind == "SearchRequest":
+                app(lambda: s.search_result_done(mid, rc, mdn, diag), "s")
+            else:
+                val = ctx.bytes(f"{tag}.val", 1)
+                app(lambda: s.extended_response(mid, None, val, rc, mdn, diag), "s")
+            if len(sent["sc"]) > n0:
+                r = sent["sc"][-1].result
+                ctx.require(ctx.all(ctx.eq(r.matched_dn, mdn), ctx.eq(r.diagnostics_message, diag), r.result_code == rc), "sent-message-differs-from-the-call-arguments:result")
+                if kind == "ExtendedRequest":
+                    ctx.require(ctx.eq(sent["sc"][-1].value, val), "sent-message-differs-from-the-call-arguments:value")
+                    ctx.require(sent["sc"][-1].name is None, "sent-message-differs-from-the-call-arguments:name")
+                if kind == "BindRequest":
+                    ctx.require(ctx.eq(sent["sc"][-1].server_sasl_creds, cred), "sent-message-differs-from-the-call-arguments:creds")
         elif act == "c_ext":
             app(lambda: c.extended_request("1.2", ctx.bytes(f"{tag}.val", 1)), "c")
         elif act == "c_unbind":
